@@ -126,7 +126,7 @@ impl Check for C07 {
                 if subsets.len() * lock_ctx.len() > max_worlds && (si * 7 + li * 13) % ((subsets.len() * lock_ctx.len()) / max_worlds + 1) != 0 {
                     continue;
                 }
-                let mut w = World { keys: BTreeSet::new(), preimages: BTreeSet::new(), lock_time: *lt, sequence: *sq };
+                let mut w = World { keys: BTreeSet::new(), preimages: BTreeSet::new(), lock_time: *lt, sequence: *sq, tx_version: 2 };
                 for (i, k) in key_atoms.iter().enumerate() {
                     if s >> i & 1 == 1 {
                         w.keys.insert(*k);
